@@ -10,7 +10,7 @@ one() {
   d=$1; id=$(basename $d); wt=/tmp/mx/$id
   git -C /repo worktree add -q --detach $wt HEAD 2>/dev/null || { echo "$id worktree failed"; return; }
   if git -C $wt apply /verif/seeded/$id/patch.diff 2>/dev/null; then
-    ./bin/verif check -property all -repo $wt -verif /verif -no-evidence > seeded/$id/checks_now.txt 2>&1
+    ${VERIF_BIN:-./bin/verif} check -property all -repo $wt -verif /verif -no-evidence > seeded/$id/checks_now.txt 2>&1
   else
     echo "patch does not apply" > seeded/$id/checks_now.txt
   fi
